@@ -117,7 +117,7 @@ func (w *world) queryScope(t []string) string {
 		return showScope(w.scopeFor(wire.Dec(t[1]), lbl))
 	case t[0] == "gw" && len(t) == 2:
 		return showScope(w.gatewayScopeFor(wire.Dec(t[1])))
-	case t[0] == "xds" && len(t) >= 3:
+	case (t[0] == "xds" || t[0] == "routes") && len(t) >= 3:
 		return w.queryXDS(t)
 	}
 	return "bad-op"
@@ -236,6 +236,18 @@ func (w *world) drVisibleDoc(d *drSpec, ns string) bool {
 	return false
 }
 
+// aliasVisibleDoc: the alias (namespace, hostname) is backed by a service of that key that is
+// exported to ns (a real alias is a Kubernetes ExternalName service, whose key is unique).
+func (w *world) aliasVisibleDoc(ans, ahost, ns string) bool {
+	for i := range w.svcs {
+		sp := &w.svcs[i]
+		if sp.ns == ans && sp.hostname == ahost && w.documentedVisible(sp, ns) {
+			return true
+		}
+	}
+	return false
+}
+
 func (w *world) vsByKey(key string) *vsSpec {
 	for i := range w.vss {
 		if w.vss[i].ns+"/"+w.vss[i].name == key {
@@ -268,20 +280,80 @@ func vsDestHosts(v *vsSpec) map[string]bool {
 }
 
 // oracleOneScope checks one computed scope against the property.
-func (w *world) oracleOneScope(sc *model.SidecarScope, ns string, gateway bool) string {
-	type lst struct {
-		hosts    []string
-		portBind bool
-	}
-	var listeners []lst
-	if sc.Sidecar != nil && len(sc.Sidecar.Egress) > 0 {
-		for _, e := range sc.Sidecar.Egress {
-			pb := e.Port != nil && e.Port.Number != 0 && strings.ToUpper(e.Port.Protocol) != "HTTP_PROXY"
-			listeners = append(listeners, lst{e.Hosts, pb})
+// expectedSidecar: which Sidecar resource the API documentation says applies to a workload:
+// a Sidecar of the workload's namespace whose workloadSelector matches (oldest first), else the
+// selector-less Sidecar of that namespace, else the selector-less Sidecar of the root namespace
+// (the mesh-wide default), else none. Independent of getSidecarScope / initSidecarScopes.
+func (w *world) expectedSidecar(ns string, lbl map[string]string) *sidecarSpec {
+	older := func(a, b *sidecarSpec) bool {
+		if a.ctime != b.ctime {
+			return a.ctime < b.ctime
 		}
-	} else {
-		listeners = []lst{{[]string{"*/*"}, false}}
+		if a.name != b.name {
+			return a.name < b.name
+		}
+		return a.ns < b.ns
 	}
+	var best *sidecarSpec
+	pick := func(ok func(s *sidecarSpec) bool) *sidecarSpec {
+		best = nil
+		for i := range w.scs {
+			s := &w.scs[i]
+			if ok(s) && (best == nil || older(s, best)) {
+				best = s
+			}
+		}
+		return best
+	}
+	matches := func(sel map[string]string) bool {
+		for k, v := range sel {
+			if lbl[k] != v {
+				return false
+			}
+		}
+		return true
+	}
+	if s := pick(func(s *sidecarSpec) bool { return s.ns == ns && s.selector != nil && matches(s.selector) }); s != nil {
+		return s
+	}
+	if s := pick(func(s *sidecarSpec) bool { return s.ns == ns && s.selector == nil }); s != nil {
+		return s
+	}
+	return pick(func(s *sidecarSpec) bool { return s.ns == w.mesh.root && s.selector == nil })
+}
+
+// checkAppliedSidecar compares the Sidecar the real scope was computed from with the documented choice.
+func (w *world) checkAppliedSidecar(sc *model.SidecarScope, ns string, lbl map[string]string) string {
+	exp := w.expectedSidecar(ns, lbl)
+	switch {
+	case exp == nil && sc.Sidecar != nil:
+		return "wrong-sidecar-applied expected-none got-" + sc.Name + " " + ns
+	case exp != nil && (sc.Sidecar == nil || sc.Name != exp.name):
+		return "wrong-sidecar-applied expected-" + exp.ns + "/" + exp.name + " got-" + sc.Name + " " + ns
+	}
+	return ""
+}
+
+type oracleListener struct {
+	hosts    []string
+	portBind bool
+}
+
+// documentedListeners: the egress listeners of the Sidecar that the documentation says applies
+// (nil spec or no egress: the implicit */* listener).
+func documentedListeners(exp *sidecarSpec) []oracleListener {
+	if exp == nil || len(exp.egress) == 0 {
+		return []oracleListener{{[]string{"*/*"}, false}}
+	}
+	var out []oracleListener
+	for _, e := range exp.egress {
+		out = append(out, oracleListener{e.hosts, e.port != 0 && strings.ToUpper(e.proto) != "HTTP_PROXY"})
+	}
+	return out
+}
+
+func (w *world) oracleOneScope(sc *model.SidecarScope, ns string, gateway bool, exp *sidecarSpec) string {
+	listeners := documentedListeners(exp)
 	// soundness: every delivered service is exported to ns and imported
 	inScope := map[string]bool{}
 	byHost := map[string]*model.Service{}
@@ -321,6 +393,13 @@ func (w *world) oracleOneScope(sc *model.SidecarScope, ns string, gateway bool) 
 		if !imported {
 			return "leak-not-imported " + sp.id + " " + ns
 		}
+		// every alias hostname carried by the service (a route domain / SNI of that service) stands
+		// for an ExternalName service that is exported to ns
+		for _, a := range s.Attributes.Aliases {
+			if !w.aliasVisibleDoc(a.Namespace, string(a.Hostname), ns) {
+				return "alias-not-exported " + wire.Enc(a.Namespace+"/"+string(a.Hostname)) + " " + ns
+			}
+		}
 		// delivered ports are ports of the service (or of a service with the same hostname and
 		// namespace it was merged with)
 		for _, p := range s.Ports {
@@ -356,18 +435,29 @@ func (w *world) oracleOneScope(sc *model.SidecarScope, ns string, gateway bool) 
 			if sp == nil || !w.documentedVisible(sp, ns) {
 				return "listener-leak-not-exported " + svcID(s) + " " + ns
 			}
+			for _, a := range s.Attributes.Aliases {
+				if !w.aliasVisibleDoc(a.Namespace, string(a.Hostname), ns) {
+					return "listener-alias-not-exported " + wire.Enc(a.Namespace+"/"+string(a.Hostname)) + " " + ns
+				}
+			}
 		}
 	}
 	// the documented same-hostname tie-break inside one egress listener: the proxy's own namespace
 	// wins, then (unified scoping) the namespace of a Kubernetes service, else any candidate namespace
 	if !gateway {
-		for _, l := range sc.EgressListeners {
-			hosts := []string{"*/*"}
+		if len(sc.EgressListeners) != len(listeners) {
+			return "listener-count-differs-from-sidecar " + ns
+		}
+		for li, l := range sc.EgressListeners {
+			hosts := listeners[li].hosts
 			port := 0
-			if l.IstioListener != nil {
-				hosts = l.IstioListener.Hosts
-				if p := l.IstioListener.Port; p != nil && p.Number != 0 && strings.ToUpper(p.Protocol) != "HTTP_PROXY" {
-					port = int(p.Number)
+			if listeners[li].portBind {
+				port = 1
+			}
+			// every service of the listener is imported by the listener's own documented host list
+			for _, s := range l.Services() {
+				if !importsHost(ns, hosts, s.Attributes.Namespace, string(s.Hostname)) {
+					return "listener-leak-not-imported " + svcID(s) + " " + ns
 				}
 			}
 			chosen := map[string]string{}
@@ -450,12 +540,16 @@ func (w *world) oracleScope() string {
 		case t[0] == "scope" && len(t) == 3:
 			lbl, _ := decLabels(t[2])
 			ns := wire.Dec(t[1])
-			if v := w.oracleOneScope(w.scopeFor(ns, lbl), ns, false); v != "" {
+			sc := w.scopeFor(ns, lbl)
+			if v := w.checkAppliedSidecar(sc, ns, lbl); v != "" {
+				return v
+			}
+			if v := w.oracleOneScope(sc, ns, false, w.expectedSidecar(ns, lbl)); v != "" {
 				return v
 			}
 		case t[0] == "gw" && len(t) == 2:
 			ns := wire.Dec(t[1])
-			if v := w.oracleOneScope(w.gatewayScopeFor(ns), ns, true); v != "" {
+			if v := w.oracleOneScope(w.gatewayScopeFor(ns), ns, true, nil); v != "" {
 				return v
 			}
 		case t[0] == "xds" && len(t) >= 3:
